@@ -40,6 +40,7 @@ structure Job where
   tasks : List Nat     -- `VecDeque<JobTask>`, front first
   tag   : Nat          -- identity of the launch (stands for `command_line`); never read by the code
   orig  : List Nat     -- ghost: the tasks the job was created with; never read by the code
+  code  : Nat := 0     -- the exit code the job's (last awaited) task completes with
   deriving DecidableEq, Repr
 
 abbrev Table := List Job
@@ -60,9 +61,9 @@ def nextId (r : IdRule) (t : Table) : Nat :=
   | .maxPlus1 => maxId t + 1
 
 /-- `JobManager::add_as_current` -/
-def addAsCurrent (r : IdRule) (t : Table) (tasks : List Nat) (tag : Nat) (state : JState) : Table :=
+def addAsCurrent (r : IdRule) (t : Table) (tasks : List Nat) (tag : Nat) (state : JState) (code : Nat := 0) : Table :=
   demoteFirstCurrent t ++
-    [{ id := nextId r t, ann := .current, state := state, tasks := tasks, tag := tag, orig := tasks }]
+    [{ id := nextId r t, ann := .current, state := state, tasks := tasks, tag := tag, orig := tasks, code := code }]
 
 /-- `current_job` / `prev_job`: the first job carrying the annotation -/
 def findAnn (a : Ann) (t : Table) : Option Job := t.find? (fun j => j.ann = a)
@@ -147,10 +148,12 @@ structure St where
   launched : Nat         -- jobs launched so far; their tags are `1 … launched`
   gone     : List Job    -- jobs removed from the table (by poll or sweep), as they were when removed
   stuck    : Bool        -- a `wait` never returned
+  lastWait : Nat := 0    -- exit status of the last `wait` that returned
   deriving Repr
 
 inductive Op where
-  | launch (ntasks : Nat) (stopped : Bool)   -- `cmd &` (one task), or a stopped pipeline handed to the table
+  | launch (ntasks : Nat) (stopped : Bool) (code : Nat := 0)
+      -- `cmd &` (one task) whose body ends with `code`, or a stopped pipeline handed to the table
   | finish (k : Nat)                          -- environment: task k completes
   | poll                                      -- `check_for_completed_jobs`
   | waitAll (sched : List Nat)                -- `wait`
@@ -167,29 +170,39 @@ def validSched (s : St) (sched : List Nat) : List Nat :=
 
 def setAt (t : Table) (i : Nat) (j : Job) : Table := t.set i j
 
+/-- what `Job::wait` returns: the result of the last task it awaited (success when there was none) -/
+def waitStatus (j : Job) : Nat := if j.tasks.isEmpty then 0 else j.code
+
 def step (s : St) (op : Op) : St :=
   if s.stuck then s else
   match op with
-  | .launch n stopped =>
+  | .launch n stopped code =>
     { s with table := addAsCurrent s.rule s.table (List.range' s.nextTask n) (s.launched + 1)
-                        (if stopped then .stopped else .running),
+                        (if stopped then .stopped else .running) code,
              nextTask := s.nextTask + n, launched := s.launched + 1 }
   | .finish k => if 1 ≤ k ∧ k < s.nextTask ∧ ¬ k ∈ s.fin then { s with fin := k :: s.fin } else s
   | .poll => let r := poll s.fin s.table; { s with table := r.1, gone := s.gone ++ r.2 }
   | .waitAll sched =>
     match waitAll s.table s.fin (validSched s sched) with
     | none => { s with stuck := true }
-    | some r => { s with table := r.1, gone := s.gone ++ r.2.1, fin := r.2.2.2.reverse ++ r.2.2.1 }
+    | some r => { s with table := r.1, gone := s.gone ++ r.2.1, fin := r.2.2.2.reverse ++ r.2.2.1, lastWait := 0 }
   | .waitSpec sp sched =>
+    -- the job-spec branch of the `wait` builtin: wait for the named job, the status is the job's exit code
+    -- (127 and a message for a spec that names no job); then `sweep_completed_jobs`: a job that has been
+    -- waited for is gone from the table
     match resolveIdx s.table sp with
-    | none => { s with fin := (validSched s sched).reverse ++ s.fin }
+    | none =>
+      { s with table := (sweep s.table).1, gone := s.gone ++ (sweep s.table).2,
+               fin := (validSched s sched).reverse ++ s.fin, lastWait := 127 }
     | some i =>
       match s.table[i]? with
       | none => s
       | some j =>
         match jobWait j s.fin (validSched s sched) with
         | none => { s with stuck := true }
-        | some r => { s with table := s.table.set i r.1, fin := r.2.2.reverse ++ r.2.1 }
+        | some r =>
+          { s with table := (sweep (s.table.set i r.1)).1, gone := s.gone ++ (sweep (s.table.set i r.1)).2,
+                   fin := r.2.2.reverse ++ r.2.1, lastWait := waitStatus j }
   | .query => s
 
 def run (s : St) (ops : List Op) : St := ops.foldl step s
@@ -247,7 +260,8 @@ def forkChild (s : St) : St := { s with table := [], gone := [] }
 environment's record (tasks created and completed meanwhile) has moved on, and a clone that never
 returns keeps the parent waiting for it -/
 def joinChild (s child : St) : St :=
-  { s with fin := child.fin, nextTask := child.nextTask, launched := child.launched, stuck := child.stuck }
+  { s with fin := child.fin, nextTask := child.nextTask, launched := child.launched, stuck := child.stuck,
+           lastWait := child.lastWait }
 
 /-- run `ops` issued from context `c` -/
 def runIn (c : Ctx) (s : St) (ops : List Op) : St :=
